@@ -1,4 +1,4 @@
 CONSTANTS
-  Contexts = {"module", "fn", "arrow_expr", "arrow_block", "arrow_arrow", "class_field", "method", "default_param", "block", "loop", "if_unbraced"}
+  Contexts = {"module", "fn", "arrow_expr", "arrow_block", "arrow_arrow", "class_field", "method", "default_param", "block", "loop", "if_unbraced", "loop_first", "while_first", "calls_first", "field_first", "param_first"}
 INIT Init
 NEXT Next
